@@ -49,7 +49,7 @@ var c12Dangerous = map[string][]string{
 	"path/filepath": {"Abs", "EvalSymlinks", "Glob", "Walk", "WalkDir"},
 	"fmt":           {"Print", "Printf", "Println", "Scan", "Scanf", "Scanln"},
 	"bufio":         {},
-	risorOSPath:     {"NewSimpleOS", "Current", "LookupUser", "LookupUid", "LookupGroup", "LookupGid"},
+	c12_risorOSPath:     {"NewSimpleOS", "Current", "LookupUser", "LookupUid", "LookupGroup", "LookupGid"},
 }
 
 func c12Str(fset *token.FileSet, n ast.Node) string {
